@@ -395,6 +395,7 @@ CALLS = [
     "rec(x, 'ab')", 'rec(x, "ab")', "rec(x, 'Ab', k=\"abc\")", "rec(x, True)", "rec(x, False)", "rec(x, None)", "rec(x, k=None)", "rec(x, b=True, k=False)",
     "rec(rec(x, 2), z)", "rec(x, rec(z, 3), k=rec(x))", "np.log(rec(x) + 1)", "rec(np.log(x), np.exp(z))", "rec(x + z * 2, z / x)", "rec((x + z) * 2, k=(z - x) / 2)",
     "rec(x, 1, True)", "rec(x, 2.0, 2)", "rec(x, 0, k=False)", "rec(x, True, 1)", "rec(x, 1.0, 1, 1, True)", "rec(x, 'a', \"a\")", "rec(rec(x, 1), True)",
+    "rec(x, 'a  b')", "rec(x, 'a\tb ')", "rec(x, ' a ', k=\"  \")", "rec(x, 'A   b', 'a b')",
     "rec(x, 2, 3, 4, 5)", "rec(x, 0.5, .5)", "rec(-x, +z)", "rec(x, k=z ** 2)", "rec(x, -2)", "rec(x, - 2)", "np.power(x, 2)", "I(np.maximum(x, z) - np.minimum(x, z))",
     "rec(x > 1, z <= 2)", "rec(x == 2.0)", "rec(x != z, x < z)", "rec(x, 'a b')", "rec(x, 'a,b)')", "rec( x ,k = 3 )", "rec(x,k=3)",
 ]
@@ -449,11 +450,23 @@ def check_distinct(case, acc):
 
 def check_e2e(case, acc):
     """The same through design_matrices: value, name, {e} == I(e)."""
+    import types
     from formulae import design_matrices
 
     df = frame()
     ns = namespace(df)
     problems = []
+    # the same dotted text bound to other objects in later evaluations
+    for step, (k1, k2) in enumerate([(2.0, 100.0), (3.0, -1.0), (2.0, 100.0)]):
+        tools = types.SimpleNamespace(shift=lambda v, k1=k1: v * k1, sub=types.SimpleNamespace(fn=lambda v, k2=k2: v + k2))
+        for text, want in (("tools.shift(x)", df["x"] * k1), ("tools.sub.fn(x)", df["x"] + k2), ("np.log(tools.shift(x))", np.log(df["x"] * k1))):
+            acc.calls += 1
+            try:
+                dm = design_matrices(f"y ~ 0 + {text}", df, extra_namespace={"tools": tools})
+                if not same(np.asarray(want, dtype=float), np.asarray(dm.common.design_matrix)[:, 0]):
+                    problems.append(("value", "value-other", f"evaluation {step + 1} of '{text}': not the value of the function bound to that name now"))
+            except Exception as ex:
+                problems.append(("value", "rejected", f"design_matrices('y ~ 0 + {text}') raised {type(ex).__name__}: {ex}"))
     for e in ["x + z", "x * z - 2", "x / z + 0.5", "x ** 2", "(x + z) ** 2", "x - (z - 2)", "-x + z", "x > z", "x * (z + 2) / (x + 1)", "2 ** x", "x <= 2"]:
         py = py_eval(e, ns)[1]
         for call in (f"I({e})", "{" + e + "}"):
